@@ -91,6 +91,8 @@ def _rake_cfg(cfg):
     r = cfg.get('rake')
     if not r:
         return None
+    if r[0] == 'flat':
+        return 'flat', chip(cfg, r[1]), r[2]
     num, den, cap, nfnd = r
     t = cfg.get('chip', 'int')
     if t == 'frac':
